@@ -35,6 +35,8 @@ def gen_cases(tier, seed):
             base = I.dag_node_base(rng, wt=wt, exact=exact, max_edges=7) if node else I.dag_edge_base(rng, wt=wt, exact=exact, max_edges=8)
         if wt == "float" and rng.random() < 0.3:
             base["flow"] = {e: f / 4 for e, f in base["flow"].items()}      # values < 1
+        if rng.random() < 0.2:
+            I.add_zero_elements(rng, base, n=rng.randint(1, 2))      # weights are only required to be non-negative
         elems = base["nodes"] if node else base["edges"]
         c = {"cyc": cyc, "mode": base["mode"], "wt": wt, "kdelta": rng.choice([0, 0, 1]), "knone": rng.random() < 0.12, "ignore": [], "scale": [], "starts": [], "ends": [],
              "superset": None, "plr": None}
